@@ -73,7 +73,7 @@ const (
 
 var c11ModeNames = []string{"RawMessage", "any", "any+UseNumber", "struct"}
 
-func c11GenStructValue(g *gen.JSON, b []byte) []byte {
+func c11GenStructValue(g *gen.JSONDoc, b []byte) []byte {
 	t := g.T
 	b = append(b, '{')
 	first := true
@@ -149,7 +149,7 @@ func c11GenStructValue(g *gen.JSON, b []byte) []byte {
 // c11GenStream builds the stream; it returns the bytes.
 func c11GenStream(r *core.Run, mode int, maxLen int) []byte {
 	t := r.T
-	g := &gen.JSON{T: t}
+	g := &gen.JSONDoc{T: t}
 	// total size class
 	var total int
 	switch t.Pick(3, 3, 3, 2) {
